@@ -27,6 +27,17 @@ func verifRunWithCrash(match func(ev string) bool, fn func()) (crashed bool, at 
 			return
 		}
 		n++
+		// crashfrom=k: the first k-1 crash points are passed without a choice (long
+		// statements: only the later points are explored)
+		if n < verifParam("crashfrom", 0) {
+			switch ev {
+			case "page.write":
+				pagesWritten++
+			case "header.write":
+				headerWritten++
+			}
+			return
+		}
 		if verifChoice("crash-here", 2) == 1 {
 			at = fmt.Sprintf("%s#%d", ev, n)
 			// what had been written completely before the process died
@@ -85,7 +96,12 @@ func verifH_C03_hist() {
 		verifTag("preflush", "yes")
 	}
 	// the interrupted statement: kinds 0..3 (no CREATE TABLE: it is not logged)
-	st := verifFreeStmt(db, "last", slen, 4)
+	var st verifStmt
+	if lk := verifParam("lastkind", -1); lk >= 0 {
+		st = verifStmtOfKind(db, "last", slen, lk)
+	} else {
+		st = verifFreeStmt(db, "last", slen, 4)
+	}
 	verifTag("stmt", st.kind)
 	rootBefore := storage.VerifTableRoot(rs, st.table)
 	crashed, at := verifRunWithCrash(
